@@ -21,7 +21,7 @@ rm -rf $dest; mkdir -p $dest; cp $tmp/* $dest/
 python3 - "$id" "$n" "$needs" "$line" "${ROUND:-4}" <<'PY'
 import json,sys
 id,n,needs,line,rnd=sys.argv[1:6]
-origins={"15":"Asked for a value-level change that a structural checker is least likely to notice: the shape of the code stays the same and only a constant, a comparison operator, the operand order of an arithmetic expression, the choice between two similar library methods, the field or variable used, a default, a format verb or a map key component changes (at most about eight changed lines; no function, loop, branch, copy or call added or removed)","14":"Asked for a refactoring PR with a slip: a readability clean-up of 30-120 lines (helper extracted or inlined, loops or functions merged, if-chain to switch or table, early returns, hoisting, parameter struct, closure to method) where one detail was not carried over faithfully; the agent also delivered the faithful twin of the same refactoring (benign/R23-twin-*)","13":"Asked for a modernisation PR with a slip: go.mod bumped from go 1.14 to go 1.22 and part of the code rewritten with slices/maps/min/max/clear/any/range-over-int/errors.Join/per-iteration loop variables, where the new facility differs semantically from the hand-written code","12":"Asked for an issue-driven fix that overcorrects: the agent writes down a plausible user complaint, lands the targeted patch a hurried maintainer would merge for it, and the patch is too broad, too narrow or one layer off for other inputs","4":"Asked for a change a maintainer lands on purpose: an optimisation, a hardening change, a small feature/generalisation or a modernisation","11":"Asked for a change confined to a listed set of small, rarely touched helpers and accessors (the functions with the fewest obligations in the evidence)","10":"Asked for any plausible change that breaks the property only when two or more features of the library are combined (each feature alone unaffected, shown by passing control sub-tests)","9":"Asked for the substitution of one library or language facility for a similar one (reflect, strings, fmt verbs used as identities, copy/append, heap, sort, errors, defer) with the mechanisms of all earlier rounds listed as known","8":"Asked for a change of data representation or of a type-level decision (map key composition, pointer vs value, receiver kind, slice vs map, sentinel, field placement, sharing vs copying) with the mechanisms of all earlier rounds listed as known","7":"Second round of SMALL edits (about ten changed lines at most) with the mechanisms of all earlier rounds listed as known","6":"Asked for two SMALL edits (about ten changed lines at most: off-by-one, swapped arguments, wrong variable, inverted or merged condition, stale shadowed variable, deleted redundant-looking line) on clauses the known mechanisms had not touched","5":"Asked for any realistic change, preferably one where two places of the code that must agree (writer/reader, guard/guarded, table/lookup) are changed inconsistently, on clauses the known mechanisms had not touched"}
+origins={"16":"Asked for a change whose breakage shows only in NESTED resolution (a converter on the path of a parameter whose own inputs need converters): the outer requirement's name, graph, state or bookkeeping leaking into an inner requirement, failing to reach it, restored late, computed for one requirement and used for another, or two cooperating sites that each look fine alone (5-40 changed lines); run on the tree with D16 repaired","15":"Asked for a value-level change that a structural checker is least likely to notice: the shape of the code stays the same and only a constant, a comparison operator, the operand order of an arithmetic expression, the choice between two similar library methods, the field or variable used, a default, a format verb or a map key component changes (at most about eight changed lines; no function, loop, branch, copy or call added or removed)","14":"Asked for a refactoring PR with a slip: a readability clean-up of 30-120 lines (helper extracted or inlined, loops or functions merged, if-chain to switch or table, early returns, hoisting, parameter struct, closure to method) where one detail was not carried over faithfully; the agent also delivered the faithful twin of the same refactoring (benign/R23-twin-*)","13":"Asked for a modernisation PR with a slip: go.mod bumped from go 1.14 to go 1.22 and part of the code rewritten with slices/maps/min/max/clear/any/range-over-int/errors.Join/per-iteration loop variables, where the new facility differs semantically from the hand-written code","12":"Asked for an issue-driven fix that overcorrects: the agent writes down a plausible user complaint, lands the targeted patch a hurried maintainer would merge for it, and the patch is too broad, too narrow or one layer off for other inputs","4":"Asked for a change a maintainer lands on purpose: an optimisation, a hardening change, a small feature/generalisation or a modernisation","11":"Asked for a change confined to a listed set of small, rarely touched helpers and accessors (the functions with the fewest obligations in the evidence)","10":"Asked for any plausible change that breaks the property only when two or more features of the library are combined (each feature alone unaffected, shown by passing control sub-tests)","9":"Asked for the substitution of one library or language facility for a similar one (reflect, strings, fmt verbs used as identities, copy/append, heap, sort, errors, defer) with the mechanisms of all earlier rounds listed as known","8":"Asked for a change of data representation or of a type-level decision (map key composition, pointer vs value, receiver kind, slice vs map, sentinel, field placement, sharing vs copying) with the mechanisms of all earlier rounds listed as known","7":"Second round of SMALL edits (about ten changed lines at most) with the mechanisms of all earlier rounds listed as known","6":"Asked for two SMALL edits (about ten changed lines at most: off-by-one, swapped arguments, wrong variable, inverted or merged condition, stale shadowed variable, deleted redundant-looking line) on clauses the known mechanisms had not touched","5":"Asked for any realistic change, preferably one where two places of the code that must agree (writer/reader, guard/guarded, table/lookup) are changed inconsistently, on clauses the known mechanisms had not touched"}
 json.dump({"id":f"{id}-seed{n}","breaks_property":id,"round":int(rnd),
  "origin":"fresh sub-agent given only the property text, a list of already known mechanisms to avoid, and its own scratch worktree of /repo (current HEAD); nothing from /verif. "+origins.get(rnd,""),
  "needs_to_manifest":needs,
